@@ -782,10 +782,12 @@ class Evaluator:
         self.event("while", node=st, assigned=sorted(assigned))
         test = self.eval(st.test, fr)
         sig = None
-        saved = list(self.pc)
-        self.pc.append((self.truth(test), True))
+        marker = (self.truth(test), True)
+        self.pc.append(marker)
+        pre_vals = {n: fr.vars.get(n) for n in assigned}
         sig = self.exec_block(st.body, fr)
-        self.pc = saved
+        self.pc = [x for x in self.pc if x is not marker]
+        self.event("while_iter", node=st, test=test, pre=pre_vals, post={n: fr.vars.get(n) for n in assigned}, sig=sig)
         for n in assigned:
             fr.vars[n] = self.fresh("afterwhile:" + n, ("loopcarried",))
         if sig is not None and sig[0] == "return":
